@@ -285,6 +285,14 @@ def crafted_for(base):
             out.append((f"size field={v}", {"kind": "overwrite", "at": no + 4, "data": v}))
     if base.get("kind") == "http":
         b = base_image(base)[0]
+        h0 = lay["start_line_end"] + 2      # first byte of the first header line
+        for desc, data in (("first header line starts with a space (obs-fold)", b" "), ("first header line starts with a tab", b"\t"),
+                           ("first header line is empty", b"\r\n"), ("first header line has no colon", b"nocolonhere\r\n"),
+                           ("header line of only ': '", b": \r\n"), ("NUL in header name", b"\x00"),
+                           ("bare LF separators", b"\n\n"), ("lone CR", b"\r")):
+            out.append((desc, {"kind": "overwrite", "at": h0, "data": hx(data + b[h0:h0 + 4]), "stage": "plain"}))
+            out.append((desc + " (inserted)", {"kind": "splice", "other": {"kind": "literal", "data": hx(data)}, "a": 0, "b": len(data),
+                                               "at": h0, "insert": True}))
         for line in (b"", b"GET", b"GET /x", b"GET /x HTTP/1.1 extra", b"HTTP/1.1", b"HTTP/1.1 200", b"HTTP/1.1 abc OK",
                      b"HTTP/1.1 200 OK extra", b"http/1.1 9999999999999999999999 x", b"HTTP/1.1 \xff\xfe OK", b"\xff\xfe /x HTTP/1.1",
                      b"GET /x?\xff=%zz&a HTTP/1.1", b"GET //[::1/x HTTP/1.1", b"GET http://[/x HTTP/1.1", b" ", b"\r", b"HTTP/"):
